@@ -721,7 +721,7 @@ def oracle_b(res, m, got):
     if st_all != 'OK':
         viol('filter:unfiltered-report-fails', 'reg without a limit failed', ['all'], st_all, 'a report')
         return
-    want_ids = [str(p['id']) for p in m['posts']]
+    want_ids = [str(p['id']) for p in m['posts']] if m.get('posts') is not None else ids(rall)
     if ids(rall) != want_ids:
         # not a property violation by itself: the harness' line numbering disagrees with ledger's
         res.disagreements.append(dict(name='C07/journal-rendering', case=m['text'], impl=ids(rall), model=want_ids))
@@ -816,18 +816,23 @@ def replay(ctx, obj):
             res.violations.append(dict(key=obj['key'], desc=obj['desc']))
         return res
     if 'journal' in case:
+        # re-run the paired reports on the stored journal and evaluate the property text again
         path = ctx.path('replay.dat')
         open(path, 'w').write(case['journal'])
-        st, rows = run_reg(path, [])
-        print('replay: unfiltered rows: %s %s' % (st, ids(rows)))
-        for name, lim in (('P', case.get('P')), ('notP', '!(%s)' % case.get('P')), ('Q', case.get('Q'))):
-            if lim:
-                st, rows = run_reg(path, [('e', lim)])
-                print('replay: --limit %s -> %s %s' % (lim, st, ids(rows)))
-        if case.get('argv'):
-            st, rows = run_reg(path, [('qry', case['argv'])])
-            print('replay: query %r -> %s %s' % (case['argv'], st, ids(rows)))
-            st, rows = run_reg(path, [('e', case['E'])])
-            print('replay: --limit %s -> %s %s' % (case['E'], st, ids(rows)))
-        res.violations.append(dict(key=obj.get('key', 'replay'), desc=obj.get('desc', '')))
+        P, Q = case.get('P'), case.get('Q')
+        db = datetime.date.fromisoformat(case['begin'])
+        de = datetime.date.fromisoformat(case['end'])
+        ds = lambda d: d.strftime('%Y/%m/%d')
+        runs = [('all', []), ('P', [('e', P)]), ('notP', [('e', '!(%s)' % P)]), ('Q', [('e', Q)]),
+                ('PandQ', [('e', '(%s)&(%s)' % (P, Q))]), ('PorQ', [('e', '(%s)|(%s)' % (P, Q))]),
+                ('PQ2', [('e', P), ('e', Q)]), ('qry', [('qry', case['argv'])]), ('qexpr', [('e', case['E'])]),
+                ('qry2', [('qry', case['argv2'])]), ('qexpr2', [('e', case['E2'])]),
+                ('begin', [('begin', ds(db))]), ('end', [('end', ds(db))]),
+                ('range', [('begin', ds(db)), ('end', ds(de))]), ('Pq', [('e', P), ('qry', case['argv'])])]
+        got = {name: run_reg(path, limits) for name, limits in runs}
+        for name, _ in runs:
+            print('replay: %-6s %s %s' % (name, got[name][0], ','.join(ids(got[name][1]))))
+        m = dict(text=case['journal'], posts=None, P=P, Q=Q, argv=case['argv'], E=case['E'], argv2=case['argv2'],
+                 E2=case['E2'], db=db, de=de)
+        oracle_b(res, m, got)
     return res
